@@ -373,6 +373,86 @@ func streamCompress(tr *tracer.T, rng *rand.Rand, rounds int) {
 	}
 }
 
+// streamServed : requests decoded by a SERVING process. A server built by the real wiring (createAPIServer with the
+// repository's default gRPC server options and the registered codec) receives many concurrent Put requests of the same
+// size; every request names its own key and carries a value derived from that key. What each handler saw is what the
+// table holds afterwards: every acknowledged key with ITS value, nothing else.
+func streamServed(tr *tracer.T, rng *rand.Rand) {
+	child := startAPIChild("leader")
+	defer child.cmd.Process.Kill()
+	conn, err := grpc.Dial(child.addr, grpc.WithTransportCredentials(insecure.NewCredentials()),
+		grpc.WithDefaultCallOptions(grpc.MaxCallRecvMsgSize(64*1024*1024)))
+	if err != nil {
+		die("dial: %v", err)
+	}
+	defer conn.Close()
+	kvc := regattapb.NewKVClient(conn)
+	valOf := func(k string, n int) []byte {
+		v := make([]byte, n)
+		for i := range v {
+			v[i] = k[i%len(k)] ^ byte(i)
+		}
+		return v
+	}
+	sent, failed := 0, 0
+	var mu sync.Mutex
+	acked := map[string]int{}
+	for _, size := range []int{16, 900, 5000} {
+		var wg sync.WaitGroup
+		for g := 0; g < 24; g++ {
+			wg.Add(1)
+			go func(g int) {
+				defer wg.Done()
+				for i := 0; i < 40; i++ {
+					k := fmt.Sprintf("~served~%05d-g%02d-i%03d", size, g, i) // all keys of one size class have the same length
+					ctx, cancel := context.WithTimeout(context.Background(), 20*time.Second)
+					_, err := kvc.Put(ctx, &regattapb.PutRequest{Table: []byte("known"), Key: []byte(k), Value: valOf(k, size)})
+					cancel()
+					mu.Lock()
+					sent++
+					if err != nil {
+						failed++
+					} else {
+						acked[k] = size
+					}
+					mu.Unlock()
+				}
+			}(g)
+		}
+		wg.Wait()
+	}
+	ctx, cancel := context.WithTimeout(context.Background(), 60*time.Second)
+	defer cancel()
+	missing, wrong, extra := 0, 0, 0
+	seen := map[string]bool{}
+	st, err := kvc.IterateRange(ctx, &regattapb.RangeRequest{Table: []byte("known"), Key: []byte("~served~"), RangeEnd: []byte("~served~~")})
+	if err != nil {
+		die("iterate: %v", err)
+	}
+	for {
+		r, err := st.Recv()
+		if err != nil {
+			break
+		}
+		for _, kv := range r.Kvs {
+			k := string(kv.Key)
+			seen[k] = true
+			size, ok := acked[k]
+			if !ok {
+				extra++
+			} else if string(kv.Value) != string(valOf(k, size)) {
+				wrong++
+			}
+		}
+	}
+	for k := range acked {
+		if !seen[k] {
+			missing++
+		}
+	}
+	tr.Emit(map[string]any{"ev": "served", "sent": sent, "failed": failed, "acked": len(acked), "missing": missing, "wrong": wrong, "extra": extra, "alive": child.alive()})
+}
+
 func init() {
 	subcmds["stream"] = func(args []string) int {
 		fs := flag.NewFlagSet("stream", flag.ExitOnError)
@@ -386,7 +466,7 @@ func init() {
 		if err != nil {
 			die("%v", err)
 		}
-		for b := 0; b < *n+3; b++ {
+		for b := 0; b < *n+4; b++ {
 			if *only >= 0 && b != *only {
 				continue
 			}
@@ -400,6 +480,8 @@ func init() {
 				streamCompress(tr, rng, *rounds)
 			case b == *n+2:
 				streamAlignment(tr, rng)
+			case b == *n+3:
+				streamServed(tr, rng)
 			default:
 				streamFraming(tr, rng)
 			}
